@@ -38,7 +38,6 @@ Local Open Scope N_scope.
 
 # known findings that remain (see known-findings.txt); the four defects found earlier are repaired in /repo and
 # their former witnesses are ordinary regression cases now
-KEY_ZERO = "zero-duration-events-twice"
 KEY_GAP = "watch-first-event-1ns"
 KEY_ROOM = "events-refused-when-args-fill-buffer"
 KEY_ONCE = "watch-var-once-per-process"
@@ -296,7 +295,7 @@ def fixed_cases():
     def call(k, t0, t1, o0, o1, kids=()):
         return {"k": k, "t0": t0, "t1": t1, "o0": o0, "o1": o1, "kids": list(kids)}
     out = []
-    # zero-duration call with read= and the `trace` trigger: every event of the frame is written twice
+    # zero-duration call with read= and the `trace` trigger: every event of the frame once (491a61f)
     xf = [call(0, 100, 100, ob(5), ob(9))]
     out.append({"klass": "any", "cfg": {"shape": "pg", "trig": {0: {"trace": True}}, "pattern": "simple"},
                 "reads": {0: ["pf", "statm"]}, "wcpu": False, "wvar": False, "pmu": False, "xforest": xf})
@@ -726,6 +725,7 @@ def inproc(ctx):
     evaluate(ctx, cases)
     ctx.log("Coq evaluation done")
     reader(ctx, cases)
+    reader_depth(ctx, cases)
 
 
 def threads(ctx):
@@ -935,6 +935,118 @@ def reader(ctx, cases):
             ctx.violation("C17 (reader): `uftrace replay` does not show the events of the stream inside the right call with the "
                           "values they carry (diff values are signed differences)", rep, True)
     ctx.extra["reader_events_checked"] = nev
+
+
+def reader_depth(ctx, cases):
+    """analysis-time depth limits on streams with events (utils/fstack.c fstack_check_filter): `uftrace dump` and
+    `uftrace replay` with -D N and -T f@depth=N, N around the depths that carry events: the records and events shown
+    must be those the reader model shows (an event iff its own function is shown, under that function)"""
+    from vf import datadir as D
+    import struct
+    objdir = harness(ctx).objdir
+    base = 0x400000
+    syms = D.default_syms(6) + [(WVAR_OFF, 8, "D", "wvar")]
+    names = [x[3] for x in syms]
+
+    def depth_of(c):
+        d = m = 0
+        for it in c["res"]["items"]:
+            if it[0] == "R":
+                d += 1 if it[2] == 0 else -1
+                m = max(m, d)
+        return m
+    pick = [c for c in cases if c["complete"] and hook_gaps_ok(c["evs"]) and not c.get("thread_script")
+            and sum(1 for it in c["res"]["items"] if it[0] == "E") >= 2 and depth_of(c) >= 2]
+    pick.sort(key=lambda c: -depth_of(c))
+    pick = pick[:ctx.n(8, 60)]
+    jobs = []
+    for ci, c in enumerate(pick):
+        recs, rseq, labels, texts = [], [], [], []
+        for it in c["res"]["items"]:
+            if it[0] == "R":
+                k = it[5] // 256
+                recs.append({"t": it[1], "type": it[2], "depth": it[4], "addr": base + syms[k][0]})
+                rseq.append(("RE %d" if it[2] == 0 else "RX %d") % k)
+                labels.append(("entry" if it[2] == 0 else "exit", names[k]))
+                texts.append(None)
+            else:
+                eid, data = it[2], it[3]
+                if eid == ID_VAR:
+                    raw = struct.pack("<Q", base + WVAR_OFF) + data[0].to_bytes(c.get("vsize", 8), "little")
+                elif eid == ID_CPU:
+                    raw = struct.pack("<I", data[0])
+                else:
+                    raw = b"".join(struct.pack("<Q", w) for w in data)
+                recs.append({"t": it[1], "type": 3, "depth": 0, "addr": eid, "payload": struct.pack("<H", len(raw)) + raw})
+                rseq.append("REV %d" % len(rseq))
+                labels.append(("event", EV_NAME[eid]))
+                texts.append("%s (%s)" % (EV_NAME[eid], event_text(eid, data, True)))
+        d = os.path.join(ctx.scratch, "c17rdd%d" % ci)
+        shutil.rmtree(d, ignore_errors=True)
+        D.write({"tasks": [{"tid": 100, "pid": 100, "ppid": None, "recs": recs}], "syms": syms, "base": base, "events": True}, d)
+        md = depth_of(c)
+        opts = [(["-D", str(n)], n, None) for n in sorted({1, max(1, md - 1), md})]
+        fk = next((it[5] // 256 for it in c["res"]["items"] if it[0] == "R"), 0)
+        inner = [it[5] // 256 for it in c["res"]["items"] if it[0] == "R" and it[2] == 0 and it[4] >= 1]
+        if inner:
+            k2 = ctx.rng.choice(inner)
+            opts.append((["-T", "%s@depth=%d" % (names[k2], ctx.rng.choice([1, 2]))], 1024, None))
+            opts[-1] = (opts[-1][0], 1024, (k2, int(opts[-1][0][1].split("=")[1])))
+        for args, gd, trg in opts:
+            rc1, o1, e1 = D.uftrace(objdir, "dump", d, ["--event-full"] + args)
+            rc2, o2, e2 = D.uftrace(objdir, "replay", d, ["-f", "none", "--event-full"] + args)
+            jobs.append({"args": args, "gd": gd, "trg": trg, "rseq": rseq, "labels": labels, "texts": texts,
+                         "dump": (rc1, o1, e1), "replay": (rc2, o2, e2)})
+            ctx.case(key=("reader-depth", tuple(args), repr(c["res"]["items"])), tags=["reader:depth-limit"], size=len(recs))
+        shutil.rmtree(d, ignore_errors=True)
+    if not jobs:
+        return
+    defs = "Definition rjobs : list (list bool) := [\n%s\n].\n" % ";\n".join(
+        "rflags false {| rgdepth := %d; rdepth_of := %s |} [%s] (%d%%Z, [])" % (
+            j["gd"], ("fun f => if (f =? %d)%%N then Some %d%%Z else None" % j["trg"]) if j["trg"] else "fun _ => None",
+            "; ".join(j["rseq"]), j["gd"]) for j in jobs)
+    r = coq.run_cases(ctx, "c17_rdepth", PRE + "Local Open Scope Z_scope.\n", defs, [("flags", "rjobs")], timeout=900)
+    if r is None:
+        return
+    import re
+    rows = re.findall(r"\[((?:\s*(?:true|false)\s*;?)*)\]", r["flags"])
+    rows = [[x.strip() == "true" for x in row.split(";") if x.strip()] for row in rows]
+    if len(rows) != len(jobs):
+        ctx.broken("reader depth: Coq returned %d rows for %d jobs" % (len(rows), len(jobs)), r["flags"][:400])
+        return
+    for j, fl in zip(jobs, rows):
+        exp = [lab for lab, f in zip(j["labels"], fl) if f]
+        got = []
+        for l in j["dump"][1].splitlines():
+            m = re.search(r"\[(entry|exit |event)\] ([^ (]+)\(", l)
+            if m:
+                got.append((m.group(1).strip(), m.group(2)))
+        depth, expr = 0, []
+        for lab, txt, f in zip(j["labels"], j["texts"], fl):
+            if not f:
+                continue
+            if lab[0] == "entry":
+                depth += 1
+            elif lab[0] == "exit":
+                depth -= 1
+            else:
+                expr.append((depth, txt))
+        gotr = []
+        for l in j["replay"][1].splitlines():
+            t = l.strip()
+            if t.startswith("/* ") and t[3:].split(":", 1)[0] in ("read", "diff", "watch"):
+                gotr.append(((len(l) - len(l.lstrip(" "))) // 2, strip_derived(t[3:-3].strip())))
+        rep = {"mode": "reader", "options": j["args"], "records": j["rseq"], "expected_dump": exp, "got_dump": got,
+               "expected_replay": expr, "got_replay": gotr, "stderr": (j["dump"][2] + j["replay"][2])[-300:]}
+        if j["dump"][0] != 0 or j["replay"][0] != 0:
+            ctx.violation("C17 (reader): uftrace dump/replay %s fails on a stream with events" % " ".join(j["args"]), rep, True)
+        elif got != exp:
+            ctx.violation("C17 (reader): `uftrace dump %s`: the records / events shown are not those of the functions within "
+                          "the depth limit (an event is shown iff its own function is shown)" % " ".join(j["args"]), rep, True)
+        elif [list(x) for x in gotr] != [list(x) for x in expr]:
+            ctx.violation("C17 (reader): `uftrace replay %s`: the events shown are not those of the functions shown, each "
+                          "under its own function" % " ".join(j["args"]), rep, True)
+    ctx.extra["reader_depth_runs"] = len(jobs)
 
 
 def strip_derived(txt):
@@ -1180,12 +1292,12 @@ def evaluate(ctx, cases, name="c17_cases"):
     defs = case_defs(cases)
     # flags: which checker applies to which case
     nest = [c["complete"] and not has_switch(c["cfg"]) for c in cases]
-    adj = [c["complete"] and not has_switch(c["cfg"]) and read_calls_positive(c) and room_ok(c) for c in cases]
+    adj = [c["complete"] and not has_switch(c["cfg"]) and room_ok(c) for c in cases]
     tim = [c["complete"] and not has_switch(c["cfg"]) and hook_gaps_ok(c["evs"]) for c in cases]
     defs += "Definition nestchk : list bool := [%s].\n" % "; ".join(map(coq.coq_bool, nest))
     defs += "Definition adjchk : list bool := [%s].\n" % "; ".join(map(coq.coq_bool, adj))
     defs += "Definition timchk : list bool := [%s].\n" % "; ".join(map(coq.coq_bool, tim))
-    spec = [(i, c) for i, c in enumerate(cases) if c["klass"] == "plain" and c["complete"] and read_calls_positive(c)
+    spec = [(i, c) for i, c in enumerate(cases) if c["klass"] == "plain" and c["complete"]
             and room_ok(c) and F_height(c["xforest"]) <= (c["cfg"].get("max_stack") or 1024)]
     defs += ("Definition d0 : xcfg * list xev * list xobs * list oitem := "
              "(mkxcfg (mkcfg [] false false 0 0 0 [] PG) [] false false false, [], [], []).\n")
@@ -1362,6 +1474,22 @@ def regressions2(ctx):
                                                                "out": out[-14:]}, True)
 
 
+def regression_zero(ctx):
+    """491a61f: a call entered and left at one time stamp (always recorded, the threshold test being >=) got every
+    read and diff event twice; now the reads follow ENTRY and the differences precede EXIT, once each"""
+    h = harness(ctx)
+    for n, trig in enumerate(("f0@read=page-fault", "f0@read=page-fault,trace")):
+        script = ["VAL pagefault 5", "E 0 100", "VAL pagefault 9", "X 100", "DUMP"]
+        env = {"UFTRACE_TRIGGER": trig}
+        out, _ = run_script(h, script, env, 93 - 4 * n)
+        got = [(it[2], it[3][1]) for it in parse_stream(out) if it[0] == "E"]
+        ctx.case(key=("regression", "zero-duration", trig), tags=["regression:zero-duration-events-twice"],
+                 sample={"script": script, "env": env, "events": got})
+        if got != [(100002, 5), (100004, 4)]:
+            ctx.violation("C17: %s entered and left at t=100: expected one read:page-fault 5 and one diff:page-fault 4; "
+                          "got %r" % (trig, got), {"mode": "witness", "script": script, "env": env, "out": out[-12:]}, True)
+
+
 def regression_valgrind(ctx):
     """thorough tier: no invalid access / uninitialised use in the -W var path (197b449), memcheck on the real libmcount"""
     h = harness(ctx)
@@ -1394,17 +1522,6 @@ def regression_valgrind(ctx):
 # ---------------------------------------------------------------- known findings that remain
 def known(ctx):
     h = harness(ctx)
-    # a recorded call of zero duration gets every read / diff event twice (C17_zero_duration_refuted)
-    script = ["VAL pagefault 5", "E 0 100", "VAL pagefault 9", "X 100", "DUMP"]
-    env = {"UFTRACE_TRIGGER": "f0@read=page-fault,trace"}
-    out, _ = run_script(h, script, env, 93)
-    ids = [it[2] for it in parse_stream(out) if it[0] == "E"]
-    ctx.case(key=("known", KEY_ZERO), tags=["known:" + KEY_ZERO], sample={"script": script, "event_ids": ids})
-    if ids not in ([100002, 100004], [100002, 100004, 100002, 100004]):
-        ctx.violation("C17: zero-duration call with read=page-fault,trace: unexpected events %r" % (ids,),
-                      {"mode": "witness", "script": script, "env": env, "out": out[-12:]}, True)
-    ctx.known_finding(KEY_ZERO, "a recorded call whose ENTRY and EXIT carry the same time stamp gets every read and diff event "
-                      "twice", still_fails=len(ids) == 4, replay={"mode": "witness", "script": script, "env": env})
     # captured arguments that fill the frame buffer: the events of the function are refused (C17_read_diff_no_room_refuted)
     strs = [24] * 9 + [12, 11]                     # 9 * 100 + 52 + 48 = 1000 bytes of argument data
     env = {"UFTRACE_TRIGGER": "f0@read=page-fault", "UFTRACE_ARGUMENT": "f0@" + ",".join("arg%d/s" % i for i in range(1, 12))}
@@ -1508,6 +1625,7 @@ def run(ctx):
     build.get_build("plain", ctx.log)
     regressions(ctx)
     regressions2(ctx)
+    regression_zero(ctx)
     known(ctx)
     inproc(ctx)
     threads(ctx)
